@@ -211,10 +211,15 @@ class Unit:
                 except UnicodeDecodeError as e:
                     raise UnitParseError(f"Unit bytes are not valid utf-8: {e!r}")
 
-            # this cache substantially speeds up unit conversions
-            if registry and unit_expr in registry._unit_object_cache:
-                return registry._unit_object_cache[unit_expr]
-            unit_cache_key = unit_expr
+            # this cache substantially speeds up unit conversions; it maps a string to
+            # what the registry says about it, so a call that brings its own values
+            # (Unit.copy() of a unit made before a registry edit) neither reads nor
+            # fills it
+            from_registry = base_value is None and dimensions is None
+            if from_registry:
+                if registry and unit_expr in registry._unit_object_cache:
+                    return registry._unit_object_cache[unit_expr]
+                unit_cache_key = unit_expr
             unit_expr = parse_unyt_expr(unit_expr)
         # Make sure we have an Expr at this point.
         if not isinstance(unit_expr, Expr):
